@@ -1,10 +1,12 @@
 #!/bin/bash
-# usage: tools/facts_of_patch.sh <patch> <name>  — applies the patch to /repo, extracts F1 facts to /tmp/gv/<name>.json, restores /repo
+# usage: tools/facts_of_patch.sh <patch> <name>  — applies the patch to a scratch copy of /repo (never to /repo itself), extracts F1 facts to /tmp/gv/<name>.json
 set -u
 P=$(readlink -f $1); N=$2
 mkdir -p /tmp/gv
-cd /repo && git apply $P || exit 2
+S=/tmp/gv/scratch-$N
+rm -rf $S; mkdir -p $S
+git -C /repo archive HEAD | tar -x -C $S
+cd $S && git init -q . 2>/dev/null; git apply $P || { echo "patch does not apply"; rm -rf $S; exit 2; }
 T=/tmp/gv/t-$N
 LD_LIBRARY_PATH=$(rustc +nightly --print sysroot)/lib RUSTFLAGS="-Zmir-opt-level=0 -Awarnings -C debug-assertions=on -C overflow-checks=on" RUSTC_WORKSPACE_WRAPPER=/verif/driver/target/debug/griddle-facts VERIF_CRATE=griddle VERIF_FACTS_OUT=/tmp/gv/$N.json CARGO_TARGET_DIR=$T CARGO_NET_OFFLINE=true cargo +nightly check --offline --lib --features rayon,serde 2>&1 | tail -1
-rm -rf $T
-git -C /repo checkout -- . && git -C /repo clean -fdq -- src
+rm -rf $T $S
